@@ -11,8 +11,16 @@
 EXTENDS FileValues, Json
 VARIABLE hist
 gvars == <<vars, hist>>
-Rec == hist' = Append(hist, [op |-> lastop', obs |-> Obs(s'),
-                             alt |-> IF lastop'.n = "run" THEN RunOutcomes(s) ELSE {}])
+\* the history holds the operations only (cheap successor states); the observations are
+\* recomputed from the initial store when a behaviour is printed
+Rec == hist' = Append(hist, lastop')
+RECURSIVE Steps(_, _, _)
+Steps(S, ops, i) ==
+  IF i > Len(ops) THEN <<>>
+  ELSE LET S2 == Apply(S, ops[i]) IN
+       <<[op |-> ops[i], obs |-> Obs(S2), alt |-> IF ops[i].n = "run" THEN RunOutcomes(S) ELSE {}]>>
+       \o Steps(S2, ops, i + 1)
+Beh == [wf |-> s.wf, steps |-> Steps(Store(s.wf), hist, 1)]
 GSpecOps == (InitOps /\ hist = <<>>)
             /\ [][NextOps /\ Rec /\ (nops = 0 => lastop'.n = "new")]_gvars
 GSpecRuns == (InitRuns /\ hist = <<>>)
@@ -21,5 +29,11 @@ GSpecRunsTree == (InitRuns /\ hist = <<>>)
                  /\ [][NextRuns /\ Rec /\ ((nops = 0 \/ nops = MaxOps - 1) => lastop'.n = "run")]_gvars
 \* optional state constraint for the exhaustive trees: all objects of one family
 SameFamily == \A k \in 1..Len(s.objs) : Family(s.objs[k].cls) = Family(s.objs[1].cls)
-Emit == (nops = MaxOps) => PrintT("BEH " \o ToJson([wf |-> s.wf, steps |-> hist]))
+Emit == (nops = MaxOps) => PrintT("BEH " \o ToJson(Beh))
+\* -simulate evaluates the invariants on every successor it generates, so at the last level every
+\* sibling of the chosen state would be printed; print the one reached by a designated closing
+\* operation instead (always enabled: update_hash of the first object, resp. a run at time 1)
+Closing == \/ lastop.n = "update" /\ lastop.i = 1
+           \/ lastop.n = "run" /\ lastop.m = 1
+EmitSim == (nops = MaxOps /\ Closing) => PrintT("BEH " \o ToJson(Beh))
 =============================================================================
